@@ -116,3 +116,45 @@ class PipeConnector(BaseConnector):
 def make_server(handler):
     """low-level aiohttp server; `handler(request) -> web.Response`"""
     return web.Server(handler)
+
+
+def make_proxy_connector(server_factory, **kw):
+    """A real TCPConnector (all of aiohttp's proxy logic runs: proxy request construction, Proxy-Authorization placement,
+    CONNECT for https targets) whose only replaced parts are name resolution, the socket and the TLS upgrade: every
+    connection - to an origin or to a proxy - is an in-memory pipe to `server_factory()`; the endpoint it was opened
+    for is attached to the server-side transport (extra info 'c17_endpoint' = (host, port))."""
+    import socket
+    from aiohttp.connector import TCPConnector
+
+    class ProxyPipeConnector(TCPConnector):
+        def __init__(self, **kw2):
+            super().__init__(**kw2)
+            self.pairs = []
+
+        async def _resolve_host(self, host, port, traces=None):
+            return [{"hostname": host, "host": "192.0.2.1", "port": port, "family": socket.AF_INET, "proto": 0, "flags": 0}]
+
+        async def _wrap_create_connection(self, *args, addr_infos, req, timeout, client_error=None, **kwargs):
+            endpoint = (req.url.raw_host, req.url.port)
+            cp = args[0]()
+            sp = server_factory()
+            ct = PipeT(self._loop)
+            st = PipeT(self._loop, {"c17_endpoint": endpoint})
+            ct.peer, st.peer = st, ct
+            ct.proto, st.proto = cp, sp
+            sp.connection_made(st)
+            cp.connection_made(ct)
+            self.pairs.append((endpoint, ct, st))
+            return ct, cp
+
+        async def _start_tls_connection(self, underlying_transport, req, timeout, client_error=None):
+            # after a successful CONNECT the tunnel is used in clear text (no TLS inside the harness)
+            proto = self._factory()
+            underlying_transport.proto = proto
+            proto.connection_made(underlying_transport)
+            return underlying_transport, proto
+
+        def _warn_about_tls_in_tls(self, transport, req):
+            pass
+
+    return ProxyPipeConnector(**kw)
